@@ -746,9 +746,11 @@ func (l *lexer) lexHeredoc() action {
 // scanHeredocs scans the pending here-documents. It returns false when
 // the lexer should be terminated.
 func (l *lexer) scanHeredocs() bool {
+	// start of the line, which may go on over line continuations
+	var start ast.Pos
 	find := func(r *ast.Redir, delim string) bool {
 		for i := len(l.word) - 1; i >= 0; i-- {
-			if l.word[i].Pos().Col() == 1 {
+			if l.word[i].Pos() == start {
 				s := l.print(l.word[i:])
 				if r.Op == "<<-" {
 					s = strings.TrimLeft(s, "\t")
@@ -767,6 +769,7 @@ func (l *lexer) scanHeredocs() bool {
 	}
 	for h := l.heredoc.pop(l.cancel); h != nil; h = l.heredoc.pop(l.cancel) {
 		l.mark(0)
+		start = l.pos
 		// unquote
 		var word ast.Word
 		var quoted bool
@@ -821,6 +824,7 @@ func (l *lexer) scanHeredocs() bool {
 					l.lit()
 				}
 				l.mark(0)
+				start = l.pos
 			case !quoted:
 				switch r {
 				case '\\':
